@@ -31,6 +31,10 @@ Cases ==
     \* DirectionFwd with a requested direction 79 degrees off the chord (to either side) on the most cambered sections
     {[m |-> "airfoil", op |-> "config", chord |-> c, camber |-> 8, thick |-> 6, le |-> "intersect", te |-> "fit",
       orient |-> "dir", face |-> "upper", nside |-> 200, open |-> FALSE, od |-> k] : c \in Chords, k \in {1, 2}} \cup
+    \* sections of the opposite hand (mirror images: the camber line bows to the right of its leading-to-trailing chord, the polygon
+    \* is wound the other way); a detected upper side is then the mirrored one
+    {[m |-> "airfoil", op |-> "config", chord |-> c, camber |-> h, thick |-> 6, le |-> "intersect", te |-> "fit",
+      orient |-> IF f = "detect" THEN "tmax" ELSE "dir", face |-> f, nside |-> 200, open |-> FALSE, mirror |-> 1] : c \in Chords, h \in Cambers \ {0}, f \in {"detect", "upper"}} \cup
     {[m |-> "airfoil", op |-> "livelock"]}
 Init == case \in Cases
 Next == UNCHANGED case
